@@ -519,8 +519,18 @@ int main()
             // move-ASSIGN into another (already used) parser object, destroy the old one
             st.last.reset();
             std::string e = guarded([&] {
+                // the target has settings of its own that differ from any source: everything must be replaced
+                static unsigned long movea_calls = 0;
                 auto q = std::make_unique<no::parser>("other", "about");
                 q->toggle("leftover");
+                if (movea_calls++ % 2 == 0)
+                {
+                    q->accept_positionals(5);
+                    q->greedy_postionals(true);
+                    q->positional_metavar("LEFTOVER");
+                    q->group("zz-leftover-group", "left over").toggle("leftover2").short_name("L");
+                    q->group("aa-leftover-group").option("leftover3");
+                }
                 *q = std::move(*st.p);
                 st.p = std::move(q);
             });
@@ -576,6 +586,22 @@ int main()
                 argv.push_back(nullptr);
                 e = guarded([&] {
                     st.last.emplace(st.p->parse(static_cast<int>(argv.size()) - 1, argv.data()));
+                });
+            }
+            else if (w[1] == "W")
+            {
+                // like V, but every token that does not start with a dash is built with user_input::verbatim()
+                // (the documented way to hand over a value as it is); dash tokens are built normally
+                e = guarded([&] {
+                    std::vector<no::user_input> in;
+                    for (auto& t : toks)
+                    {
+                        if (!t.empty() && t[0] == '-')
+                            in.emplace_back(t);
+                        else
+                            in.push_back(no::user_input::verbatim(t));
+                    }
+                    st.last.emplace(st.p->parse(in));
                 });
             }
             else
